@@ -6,9 +6,12 @@ makes, including the calls made inside `perform_zhit`.
 
 Clauses decided (one concrete spectrum + option cell = one "sub-case"):
  cp       constant-phase spectrum (R, C, L, Q, W; numpy formula, parameters over decades, any grid, optional mask
-          with poison values): | |Z_fit|/|Z| - 1 | <= TOL_CP at every unmasked point, for the option cell
-          (smoother x interpolator x {Z,Y}) x (num_points, polynomial_order) x window (14 named windows with random
-          centre/width, custom weight arrays).
+          with poison values): at every unmasked point | |Z_fit|/|Z| - 1 | <= TOL_CP (1e-2; the floor is the
+          termination of lmfit's offset fit at ~4e-6*|offset|, worst observed 1.2e-4) AND the spread of
+          ln(|Z_fit|/|Z|) over the spectrum <= TOL_CP_SHAPE (1e-6, worst observed 1.2e-11: the part of the result that
+          is reconstructed from the phase, free of the offset fit), for the option cell (smoother x interpolator x
+          {Z,Y}, plus the option value "auto") x (num_points, polynomial_order) x window (14 named windows with
+          random centre/width, "auto", custom weight arrays).
  ladder   R0 + sum R_k/(1+(j w tau_k)^n_k) (1-4 RC/RQ elements): deviation <= TOL_LADDER at the well-weighted points
           (weight >= half of the largest weight).
  scale    Z*a -> Z_fit*a (both clauses).
@@ -34,7 +37,6 @@ Latitude (the statement is silent, so both behaviours are accepted):
  - ladder deviations are judged at well-weighted points only: the offset is fitted there, elsewhere the (few percent)
    systematic error of the two-term Z-HIT series is not centred.
 """
-import json
 import warnings
 
 import numpy as np
@@ -45,7 +47,7 @@ ID = "C11"
 RULE = (
     "sub-cases drawn from rng([seed, case]): cp = element in {R,C,L,Q,W} (parameters log-uniform over 8-13 decades, "
     "Q exponent 0.05-1) x grid (regular 3-20 ppd / jittered / random, 2-9 decades, asc|desc, optional poisoned mask) x "
-    "cell cycled over 5 smoothers x 4 interpolators x {Z,Y} x window cycled over 14 named windows (random centre/width) "
+    "cell cycled over 5 smoothers x 4 interpolators x {Z,Y} (every 23rd: smoothing=interpolation='auto') x window cycled over 14 named windows (random centre/width) "
     "and 5 custom-weight patterns x (num_points, polynomial_order) from the core domain; ladder = 1-4 RC/RQ elements, "
     "R_k/R_0 in [1,100], regular grids 8-16 ppd, default smoothing parameters. Each sub-case runs the base reconstruction plus the scaling and the two "
     "weight-perturbation relations. Direct-call blocks: every (smoother, num_points 1..11, order 1..10) x constant/"
@@ -73,7 +75,7 @@ ELEMS = ["R", "C", "L", "Q", "W"]
 # frozen tolerances (calibration: see the report in evidence.coverage.worst_observed)
 TOL_CP = 1e-2  # total deviation; floor = termination of lmfit's offset fit, measured <= 4.1e-6*|ln|Z(f_max)|| <= 1.6e-4
 TOL_CP_SHAPE = 1e-6  # spread of ln(|Z_fit|/|Z|) over the points (the part that does not depend on the offset fit)
-TOL_LADDER = 0.08  # observed <= 0.045; mutants >= 0.2
+TOL_LADDER = 0.08  # observed <= 0.040 inside the generator domain (= intrinsic error of the two-term series); mutants >= 0.2
 TOL_SCALE_CP = 1e-2  # two independent offset fits, each within the cp floor
 TOL_SCALE_LADDER = 1e-2  # same floor (two offset fits); observed <= 2.5e-5
 TOL_REL_SHAPE = 1e-6  # relations: spread of ln(|Z_fit'|/|Z_fit|) (same phase data -> same shape)
